@@ -57,6 +57,67 @@ fn merge(ranges: &[(usize, usize)]) -> Vec<(usize, usize)> {
     out
 }
 
+/// The source as `child.rs`, declared by `mod child;` in an unformatted root that is given to the
+/// real binary by path with --file-lines naming the child's file, the root's file, or both: each
+/// file must end up as the API gives for its own text under its own ranges (no range = nothing
+/// selected = unchanged).
+fn run_tree(case: &Value, r: &RunCtx) -> Outcome {
+    let child_src = case["src"].as_str().unwrap_or("");
+    let ranges: Vec<(usize, usize)> = case["ranges"].as_array().map(|a| a.iter().filter_map(|p| Some((p.get(0)?.as_u64()? as usize, p.get(1)?.as_u64()? as usize))).collect()).unwrap_or_default();
+    if ranges.is_empty() {
+        return Outcome::skip("tree-case-without-ranges");
+    }
+    let which = case["tree"].as_str().unwrap_or("child");
+    let root_src = "mod child;\nfn  root_fn ( ) { let  x=1 ; }\nstruct  R{a:u8}\n";
+    let dir = r.tmp.join(format!("c17-{}", r.case_no));
+    let _ = std::fs::remove_dir_all(&dir);
+    let _ = std::fs::create_dir_all(&dir);
+    let _ = std::fs::write(dir.join("main.rs"), root_src);
+    let _ = std::fs::write(dir.join("child.rs"), child_src);
+    let dir = dir.canonicalize().unwrap_or(dir);
+    let mut sel: Vec<Value> = vec![];
+    let child_ranges: Vec<(usize, usize)> = if which != "root" { ranges.clone() } else { vec![] };
+    let root_ranges: Vec<(usize, usize)> = if which != "child" { vec![(2, 2)] } else { vec![] };
+    for (a, b) in &child_ranges {
+        sel.push(json!({"file": dir.join("child.rs").to_string_lossy(), "range": [a, b]}));
+    }
+    for (a, b) in &root_ranges {
+        sel.push(json!({"file": dir.join("main.rs").to_string_lossy(), "range": [a, b]}));
+    }
+    let args = vec!["--unstable-features".to_string(), "--file-lines".to_string(), Value::Array(sel).to_string(), "main.rs".to_string()];
+    let Some((code, _out, err)) = crate::props::c13::run_rustfmt(r, &dir, &args, None) else {
+        let _ = std::fs::remove_dir_all(&dir);
+        return Outcome::skip("cannot-run-rustfmt");
+    };
+    let got_child = std::fs::read_to_string(dir.join("child.rs")).unwrap_or_default();
+    let got_root = std::fs::read_to_string(dir.join("main.rs")).unwrap_or_default();
+    let _ = std::fs::remove_dir_all(&dir);
+    let expect = |text: &str, rs: &[(usize, usize)]| -> Option<String> {
+        if rs.is_empty() {
+            return Some(text.to_string());
+        }
+        let out = format_text(text, &vec![("file_lines".to_string(), ranges_json(rs))]);
+        if out.emitted() { Some(out.text) } else { None }
+    };
+    let (Some(want_child), Some(want_root)) = (expect(child_src, &child_ranges), expect(root_src, &root_ranges)) else {
+        return Outcome::skip("restricted-run-fails");
+    };
+    let mut o = Outcome::pass();
+    o.labels.push(format!("tree:selection-names-{which}"));
+    o.nontrivial = want_child != child_src || want_root != root_src;
+    if code != Some(0) {
+        return Outcome::fail("tree:exit-status", format!("exit {code:?}: {err}\nargs {args:?}")).nontrivial(true);
+    }
+    // blank lines at the very end of a file are not part of any item
+    if got_child.trim_end() != want_child.trim_end() {
+        return Outcome::fail(format!("tree:child-differs:{which}"), format!("child.rs (ranges {child_ranges:?}) is not what its own text gives under the same ranges\n--- child.rs before ---\n{child_src}\n--- after ---\n{got_child}\n--- expected ---\n{want_child}")).nontrivial(true);
+    }
+    if got_root.trim_end() != want_root.trim_end() {
+        return Outcome::fail(format!("tree:root-differs:{which}"), format!("main.rs (ranges {root_ranges:?}) is not what its own text gives under the same ranges\n--- after ---\n{got_root}\n--- expected ---\n{want_root}")).nontrivial(true);
+    }
+    o
+}
+
 impl Property for C17 {
     fn id(&self) -> &'static str {
         "C17"
@@ -75,7 +136,7 @@ impl Property for C17 {
         }
     }
     fn rule(&self) -> &'static str {
-        "generated sources of 3..9 unformatted top-level items (functions whose statements stand on their own lines, structs, enums, constants, imports; comments and blank lines in between) x 0..3 line ranges (aligned with items, cutting through functions, adjacent, overlapping, nested, empty list, past the end), formatted as standard input with --file-lines semantics through the API; oracle (spans from an independent parse of the input): every item that does not intersect the union of the ranges appears byte for byte, in order; every statement of an intersecting function that does not itself intersect appears byte for byte; a fully selected item equals its text in the unrestricted output; an empty selection returns the input unchanged; a range set and its merged union give identical output; with an empty selection no width/whitespace diagnostic is reported; non-trivial = at least one item selected and one unformatted item unselected; distinct by case content"
+        "generated sources of 3..9 unformatted top-level items (functions whose statements stand on their own lines, structs, enums, constants, imports; outer attributes and doc comments that rustfmt would re-lay out; comments and blank lines in between) x 0..3 line ranges (aligned with items, cutting through functions, adjacent, overlapping, nested, empty list, past the end), formatted as standard input with --file-lines semantics through the API; oracle (spans from an independent parse of the input): every item that does not intersect the union of the ranges appears byte for byte, in order; every statement of an intersecting function that does not itself intersect appears byte for byte; a fully selected item equals its text in the unrestricted output; an empty selection returns the input unchanged; a range set and its merged union give identical output; with an empty selection no width/whitespace diagnostic is reported, and no such diagnostic ever points into an unselected item; one case in forty puts the source into an out-of-line module of a root given to the real binary by path, the selection naming the module's file, the root's file or both: every file must equal what its own text gives under its own ranges; non-trivial = at least one item selected and one unformatted item unselected; distinct by case content"
     }
     fn generate(&self, c: &mut Choices<'_>, _g: &GenCtx) -> Value {
         let n = 3 + c.below(7);
@@ -83,6 +144,10 @@ impl Property for C17 {
         for i in 0..n {
             if c.chance(1, 4) {
                 src.push_str(&format!("// comment before item {i}\n"));
+            }
+            if c.chance(1, 4) {
+                // an outer attribute or doc comment rustfmt would re-lay out
+                src.push_str(*c.pick(&["#[derive(Debug,Clone)]\n", "#[cfg( test )]\n", "///   documented\n", "#[allow(dead_code)]#[inline]\n", "#[derive(Debug)]\n#[derive(Clone)]\n"]));
             }
             if c.chance(2, 3) {
                 src.push_str(&format!("fn  f{i} ( a:u8 )->u8{{\n"));
@@ -121,9 +186,15 @@ impl Property for C17 {
             };
         }
         let overflow = c.chance(1, 4);
-        json!({"src": src, "ranges": ranges, "diagnostics": overflow})
+        // one case in forty: the same source as an out-of-line module of a root given by path, the
+        // selection naming the module's file (or the root's)
+        let tree = if c.chance(1, 40) { Some(*c.pick(&["child", "root", "both"])) } else { None };
+        json!({"src": src, "ranges": ranges, "diagnostics": overflow, "tree": tree})
     }
     fn run(&self, case: &Value, _r: &RunCtx) -> Outcome {
+        if case["tree"].is_string() {
+            return run_tree(case, _r);
+        }
         let src = case["src"].as_str().unwrap_or("");
         let ranges: Vec<(usize, usize)> = case["ranges"].as_array().map(|a| a.iter().filter_map(|p| Some((p.get(0)?.as_u64()? as usize, p.get(1)?.as_u64()? as usize))).collect()).unwrap_or_default();
         let mut base: Opts = vec![];
